@@ -292,12 +292,77 @@ Proof.
       * intros st2 I2 [_ Hk2]. cbn [do_act snd gained]. rewrite (Hk2 eq_refl). apply Hgo.
 Qed.
 
+(* ---- build_recursive ---- *)
+Fixpoint rec_good (fuel : nat) (c : cid) (pns : ostr) : Prop :=
+  match fuel with
+  | O => True
+  | S f =>
+      match ideal_build w c pns with
+      | None => True
+      | Some m =>
+          canon c = Some m /\
+          Forall (fun v => match v_type v with
+                           | TCls t => rec_good f t (m_ns m) /\ (f <> O -> ideal_build w t (m_ns m) <> None)
+                           | _ => True
+                           end) (m_vars m)
+      end
+  end.
+Definition rec_ans (fuel : nat) (c : cid) (pns : ostr) : bool :=
+  match fuel with
+  | O => true
+  | S _ => match ideal_build w c pns with Some _ => true | None => false end
+  end.
+
+Lemma ok_build_rec fuel : forall K c pns k r,
+  rec_good fuel c pns ->
+  (forall K', keeps K K' -> ok K' (k (rec_ans fuel c pns)) r) ->
+  ok K (m_build_rec fuel w c pns k) r.
+Proof.
+  induction fuel as [|f IH]; intros K c pns k r Hg Hk; cbn [m_build_rec].
+  - apply Hk. unfold keeps; auto.
+  - apply ok_read; [reflexivity|]. intros st I Hkn. cbn [do_act fst snd gained]. cbn [rec_ans] in Hk. cbn [rec_good] in Hg.
+    destruct (cache_get (s_cache st) c) as [m0|] eqn:G.
+    + destruct (si_known _ I _ _ G) as [cd [Hf Hok]].
+      assert (Hi : ideal_build w c pns = Some (build_meta cd pns)) by (unfold ideal_build; rewrite Hf, Hok; reflexivity).
+      rewrite Hi in Hk. apply Hk. unfold keeps; auto.
+    + apply ok_build.
+      * intros m Hm. rewrite Hm in Hg. apply Hg.
+      * intros K1 HK1 _. destruct (ideal_build w c pns) as [m|] eqn:Hi; [|apply Hk; exact HK1].
+        destruct Hg as [_ Hvars]. revert K1 HK1. induction (m_vars m) as [|v vars IHv]; intros K1 HK1.
+        -- apply Hk. exact HK1.
+        -- inversion Hvars as [|v' vs Hv Hrest]; subst. destruct (v_type v) as [|t|].
+           ++ apply IHv; assumption.
+           ++ destruct Hv as [Hgt Hnt]. apply IH; [exact Hgt|]. intros K2 HK2.
+              assert (Ht : rec_ans f t (m_ns m) = true).
+              { unfold rec_ans. destruct f; [reflexivity|].
+                destruct (ideal_build w t (m_ns m)); [reflexivity|]. exfalso. apply Hnt; [discriminate|reflexivity]. }
+              rewrite Ht. apply IHv; [exact Hrest|]. unfold keeps in *. auto.
+           ++ apply IHv; assumption.
+Qed.
+
+Lemma rec_good_of fuel : forall c pns,
+  (forall e, In e (rec_reqs fuel w c pns) -> canon (fst e) = Some (snd e)) ->
+  rec_closed fuel w c pns = true -> rec_good fuel c pns.
+Proof.
+  induction fuel as [|f IH]; intros c pns Hr Hc; cbn [rec_good]; [exact I|].
+  cbn [rec_reqs rec_closed] in Hr, Hc. destruct (ideal_build w c pns) as [m|]; [|exact I]. split.
+  - apply (Hr (c, m)). left. reflexivity.
+  - rewrite forallb_forall in Hc. apply Forall_forall. intros v Hv. specialize (Hc v Hv).
+    destruct (v_type v) as [|t|] eqn:Et; try exact I.
+    apply andb_true_iff in Hc as [Hc1 Hc2]. split.
+    + apply IH; [|exact Hc1]. intros e He. apply Hr. right. apply in_flat_map. exists v. split; [exact Hv|].
+      rewrite Et. exact He.
+    + intros Hf. destruct f; [congruence|]. destruct (ideal_build w t (m_ns m)); [discriminate|discriminate].
+Qed.
+
 (* ---- whole thread programs ---- *)
 Fixpoint reqs_ok (s : script) : Prop :=
   match s with
   | Ret _ => True
   | Call c k => supported c = true ->
-                (forall e, In e (call_reqs w E c) -> canon (fst e) = Some (snd e)) /\ reqs_ok (k (ref_call w E c))
+                (forall e, In e (call_reqs w E c) -> canon (fst e) = Some (snd e))
+                /\ match c with CBuildRecursive c p => rec_closed (rec_fuel w) w c p = true | _ => True end
+                /\ reqs_ok (k (ref_call w E c))
   end.
 
 Lemma one_in c p m :
@@ -312,7 +377,7 @@ Proof.
   - cbn [reqs_ok] in Hr.
     destruct c as [c pns|c pns xt|q|q|c q|names|names c|c pns| | |p u];
       cbn [expand ref_run supported ref_call] in *;
-      try (constructor; fail); destruct (Hr eq_refl) as [Hreq Hrest]; clear Hr.
+      try (constructor; fail); destruct (Hr eq_refl) as [Hreq [Hrec Hrest]]; clear Hr.
     + apply ok_build.
       * intros m Hm. apply (Hreq (c, m)). cbn [call_reqs]. apply one_in. exact Hm.
       * intros K' _ _. apply IH. exact Hrest.
@@ -331,16 +396,21 @@ Proof.
     + apply ok_names_match.
       * intros m Hm. apply (Hreq (c, m)). cbn [call_reqs]. apply one_in. exact Hm.
       * intros K' _ _. apply IH. exact Hrest.
+    + apply ok_build_rec.
+      * apply rec_good_of; [|exact Hrec]. intros e He. apply Hreq. cbn [call_reqs]. exact He.
+      * intros K' _. unfold rec_ans, rec_fuel. destruct (ideal_build w c pns); apply IH; exact Hrest.
     + apply IH. exact Hrest.
 Qed.
 
 Lemma reqs_ok_of s :
-  (forall e, In e (ref_reqs w E s) -> canon (fst e) = Some (snd e)) -> reqs_ok s.
+  (forall e, In e (ref_reqs w E s) -> canon (fst e) = Some (snd e)) -> ref_rec_closed w E s = true -> reqs_ok s.
 Proof.
-  induction s as [r|c k IH]; intros H; cbn [reqs_ok]; [exact I|]. intros Hs. cbn [ref_reqs] in H. rewrite Hs in H.
-  split.
+  induction s as [r|c k IH]; intros H Hc; cbn [reqs_ok]; [exact I|]. intros Hs.
+  cbn [ref_reqs ref_rec_closed] in H, Hc. rewrite Hs in H, Hc. apply andb_true_iff in Hc as [Hc1 Hc2].
+  split; [|split].
   - intros e Hin. apply H. apply in_or_app. left. exact Hin.
-  - apply IH. intros e Hin. apply H. apply in_or_app. right. exact Hin.
+  - destruct c; try exact I. exact Hc1.
+  - apply IH; [|exact Hc2]. intros e Hin. apply H. apply in_or_app. right. exact Hin.
 Qed.
 
 (* ---- all threads together ---- *)
@@ -450,8 +520,8 @@ Theorem context_safe w st0 progs sched :
   /\ map (solo_run w st0) progs = map (ref_run w (eff_index w st0)) progs.
 Proof.
   unfold conc_guard. intros Hg.
-  apply andb_true_iff in Hg as [Hg Hcons]. apply andb_true_iff in Hg as [Hg Hunsup].
-  apply andb_true_iff in Hg as [Hworld Hknown].
+  apply andb_true_iff in Hg as [Hg Hcons]. apply andb_true_iff in Hg as [Hg Hrecs].
+  apply andb_true_iff in Hg as [Hg Hunsup]. apply andb_true_iff in Hg as [Hworld Hknown].
   set (reqs := s_cache st0 ++ flat_map (ref_reqs w (eff_index w st0)) progs) in *.
   set (canon := first_build reqs).
   assert (Hcanon : forall c m, In (c, m) reqs -> canon c = Some m).
@@ -466,6 +536,7 @@ Proof.
     + auto.
     + intros c Hin. unfold unsup_ok in Hunsup. rewrite forallb_forall in Hunsup. specialize (Hunsup _ Hin).
       destruct (ideal_build w c None); [discriminate|reflexivity].
-  - intros s Hin. apply reqs_ok_of. intros [c m] He. apply Hcanon. apply in_or_app. right.
-    apply in_flat_map. exists s. split; assumption.
+  - intros s Hin. apply reqs_ok_of.
+    + intros [c m] He. apply Hcanon. apply in_or_app. right. apply in_flat_map. exists s. split; assumption.
+    + rewrite forallb_forall in Hrecs. apply Hrecs. exact Hin.
 Qed.
